@@ -18,6 +18,7 @@ import (
 	"github.com/nspcc-dev/neo-go/pkg/config/limits"
 	"github.com/nspcc-dev/neo-go/pkg/core/block"
 	"github.com/nspcc-dev/neo-go/pkg/core/dao"
+	"github.com/nspcc-dev/neo-go/pkg/core/fee"
 	"github.com/nspcc-dev/neo-go/pkg/core/interop"
 	"github.com/nspcc-dev/neo-go/pkg/core/interop/contract"
 	"github.com/nspcc-dev/neo-go/pkg/core/mempool"
@@ -3214,7 +3215,10 @@ func (bc *Blockchain) IsTxStillRelevant(t *transaction.Transaction, txpool *memp
 	if err := bc.policy.CheckPolicy(bc.dao, t); err != nil {
 		return false
 	}
-	if t.NetworkFee < int64(t.Size())*bc.FeePerByte()+bc.CalculateAttributesFee(t) {
+	// What the size and attribute fees leave of the network fee pays for witness
+	// verification.
+	netFee := t.NetworkFee - int64(t.Size())*bc.FeePerByte() - bc.CalculateAttributesFee(t)
+	if netFee < 0 {
 		return false
 	}
 	if err := bc.verifyTxAttributes(bc.dao, t, isPartialTx); err != nil {
@@ -3225,11 +3229,15 @@ func (bc *Blockchain) IsTxStillRelevant(t *transaction.Transaction, txpool *memp
 			recheckWitness = true
 			break
 		}
+		// The cost of a standard witness is known without running it, but it
+		// changes with the execution fee factor.
+		cost, _ := fee.Calculate(bc.GetBaseExecFee(), t.Scripts[i].VerificationScript)
+		netFee -= cost
 	}
 	if recheckWitness {
 		return bc.verifyTxWitnesses(t, nil, isPartialTx) == nil
 	}
-	return true
+	return netFee >= 0
 }
 
 // VerifyTx verifies whether transaction is bonafide or not relative to the
